@@ -213,10 +213,14 @@ def main():
             sys.stdout.write(r.stdout); fault = "determinism batch failed to run"; break
         dumps.append(open(out).read()); os.unlink(out)
         det["worker_counts"].append(jobs)
+        if len(dumps[-1].splitlines()) != nd:
+            # a worker died or was stopped (crash observation, time cap): the sample is incomplete and says nothing about
+            # determinism; the search that follows reports what happened
+            det["incomplete"] = True
     if not violation and not fault:
         det["sample_runs"] = nd
         det["identical"] = all(d == dumps[0] for d in dumps) and len(dumps[0].splitlines()) == nd
-        if not det["identical"]:
+        if not det["identical"] and not det.get("incomplete"):
             # decided after the search: if the library itself is nondeterministic (output depends on addresses or stack
             # residue) the search reports that as a violation of the armed property; only if the search is clean is the
             # mismatch a fault of the harness
